@@ -134,6 +134,8 @@ def check_equality(ctx, lib):
     impls = [i for i in lib.impls if i.get("trait") == "std::cmp::PartialEq" and i["self_ty"] == V]
     ok = len(impls) == 1 and impls[0]["items"] == ["eq"] and not impls[0]["auto_derived"]
     ctx.check(ok, rule, "ne-is-not-eq", f"impl PartialEq for Variable defines only `eq`, so `!=` is exactly its negation (items: {[i['items'] for i in impls]})")
+    from ..leaf import check_kind_equality
+    check_kind_equality(ctx, lib, rule)
     b = ctx.fn("<variable::Variable as std::cmp::PartialEq>::eq", rule=rule)
     if b is None:
         return
